@@ -4,7 +4,7 @@ from .. import env, coq, runner, tables
 
 LEVEL = 'proof'
 META = dict(
-    text='Coq theorems, for every completion schedule, every next_job oracle and every fault sequence (universally quantified lists, proved by invariants and induction): the collector loop never exceeds the concurrency, starts nothing once the budget is used, delivers every completed result exactly once to on_job_result with the right job, never blocks with nothing in flight and halts only when idle and out of work, and the exception it raises is the failure of one of the jobs; the stream client routes a response to the waiter of its message id only, completes a submit future only through an event of its own job (its own response, the failure of its stream, its own cancellation, stop()) so that a late reply for a cancelled request completes nobody, sends cancel_quantum_job in exactly the steps in which a submit future ends cancelled and cancels a running submit (future cancelled, remote job cancelled) at every cancellation point - cancel() while idle, while a reply of any content or a stream failure of any kind is being delivered to it, stop() -, hands the response to the current request of a waiting execution to that execution in the same step, never reuses an id, creates the job at most once, returns only that job\'s result, terminates after finitely many retryable faults and surfaces non-retryable errors; every already-exists / does-not-exist reply that makes sense for the request it answers is answered by the right next request (JOB_ALREADY_EXISTS to either create request -> get the result, ...), the model server answers with nothing else, and hence along every event sequence in which the server answers from its state no submit ever ends in a StreamError. ProcessorSampler(max_concurrent_jobs): for every run of callers, job creations, job completions and returns accepted by the model of duet.Limiter + _run_sweep_async, the unfinished jobs never exceed the limit provided no caller arrives between a release and the resumption of the woken waiter (the unconditional statement is refuted by a witness that the check replays), every caller\'s job is created once and its own outcome returned to it once, no caller is lost, nobody waits while a slot is free, and the run can always go on. The retry decision function is regenerated from _get_retry_request_or_raise/_is_retryable_error on every run; both hand-written models are compared event by event with the implementation under a deterministic driver of the duet scheduler and of an asyncio loop.',
+    text='Coq theorems, for every completion schedule, every next_job oracle and every fault sequence (universally quantified lists, proved by invariants and induction): the collector loop never exceeds the concurrency, starts nothing once the budget is used, delivers every completed result exactly once to on_job_result with the right job, never blocks with nothing in flight and halts only when idle and out of work, and the exception it raises is the failure of one of the jobs; the stream client routes a response to the waiter of its message id only, completes a submit future only through an event of its own job (its own response, the failure of its stream, its own cancellation, stop()) so that a late reply for a cancelled request completes nobody, sends cancel_quantum_job in exactly the steps in which a submit future ends cancelled and cancels a running submit (future cancelled, remote job cancelled) at every cancellation point - cancel() while idle, while a reply of any content or a stream failure of any kind is being delivered to it, stop() -, hands the response to the current request of a waiting execution to that execution in the same step, never reuses an id, creates the job at most once, returns only that job\'s result, terminates after finitely many retryable faults and surfaces non-retryable errors; every already-exists / does-not-exist reply that makes sense for the request it answers is answered by the right next request (JOB_ALREADY_EXISTS to either create request -> get the result, ...), the model server answers with nothing else, and hence along every event sequence in which the server answers from its state no submit ever ends in a StreamError; a failure of the response stream that is not a google API error at all (unwrapped transport error, failed credential refresh, library error, BaseException) is never retried whatever the regenerated table says and reaches every submitter in flight as that very failure, after any non-retryable failure nobody is left waiting / subscribed / on the wire, and the next submit is alone on a new stream. ProcessorSampler(max_concurrent_jobs): for every run of callers, job creations, job completions and returns accepted by the model of duet.Limiter + _run_sweep_async, the unfinished jobs never exceed the limit provided no caller arrives between a release and the resumption of the woken waiter (the unconditional statement is refuted by a witness that the check replays), every caller\'s job is created once and its own outcome returned to it once, no caller is lost, nobody waits while a slot is free, and the run can always go on. The retry decision function is regenerated from _get_retry_request_or_raise/_is_retryable_error on every run; both hand-written models are compared event by event with the implementation under a deterministic driver of the duet scheduler and of an asyncio loop.',
     note='Trusted: Coq kernel; the Python drivers in vf/checks/c20.py (fake Sampler, fake Quantum Engine stream and server, hand-driven duet scheduler / asyncio loop, trace printing); vf/tables_c20.py (evaluating the retry functions on the working tree). The model processor / job objects and the observing subclass of ProcessorSampler (run_sweep_async delegates to super()). The duet and asyncio runtimes, the thread hand-off of AsyncioExecutor and the behaviour of the real gRPC layer are driven, not verified: theorems are about the models, the models are tied to the code by the regenerated retry table and by the trace comparison on enumerated/sampled schedules.',
     technique='Rocq/Coq proof over executable Gallina state machines + regenerated decision table + vm_compute trace correspondence under a deterministic event-loop driver',
 )
@@ -674,6 +674,41 @@ def _parse_job(name):
     return (int(m.group(1)), int(m.group(2))) if m else None
 
 
+# Exceptions of a broken stream that are not google API errors at all: a transport failure that was not wrapped (OS level,
+# grpc), a failed credential refresh, an error raised by the client library itself, a BaseException that is no Exception.
+# The Coq models distinguish exceptions only through is_api / is_retryable, so all of them are presented to the models as
+# the one exception that is not a GoogleAPICallError (XRuntimeError); the oracles judge the very exception object.
+NONAPI = ['ConnectionResetError', 'EOFError', 'TimeoutError', 'ValueError', 'RpcError', 'TransportError', 'RetryError',
+          'StreamAbort']
+
+
+class StreamAbort(BaseException):
+    """A failure of the response stream that is not even an Exception."""
+
+
+def nonapi_classes():
+    """name -> class (constructed with one message argument); fail-closed: none of them may be a GoogleAPICallError."""
+    import grpc
+    import google.auth.exceptions as gauth
+    import google.api_core.exceptions as gexc
+    retry_error = type('RetryError', (gexc.RetryError,), {'__init__': lambda self, m: gexc.RetryError.__init__(self, m, None)})
+    out = dict(ConnectionResetError=ConnectionResetError, EOFError=EOFError, TimeoutError=TimeoutError, ValueError=ValueError,
+               RpcError=grpc.RpcError, TransportError=gauth.TransportError, RetryError=retry_error, StreamAbort=StreamAbort)
+    for n, c in out.items():
+        if issubclass(c, gexc.GoogleAPICallError) or n not in NONAPI:
+            raise RuntimeError(f'harness: {n} is expected not to be a google API call error')
+    return out
+
+
+def _xmodel(name):
+    """the model's name of an exception kind"""
+    return 'RuntimeError' if name in NONAPI else name
+
+
+class _DriverStall(Exception):
+    """The asyncio loop of the driven StreamManager never becomes idle."""
+
+
 class StreamRun:
     """One run of the real StreamManager, event by event. All observations are tagged with the step number."""
 
@@ -685,7 +720,7 @@ class StreamRun:
         from cirq_google.engine.asyncio_executor import AsyncioExecutor
         from .. import tables_c20
         self.asyncio, self.quantum, self.sm, self.AsyncioExecutor = asyncio, quantum, sm, AsyncioExecutor
-        self.exn_classes = tables_c20.exception_classes()
+        self.exn_classes = dict(tables_c20.exception_classes(), **nonapi_classes())
         run = self
 
         class DrivenExecutor(AsyncioExecutor):
@@ -741,6 +776,7 @@ class StreamRun:
         self.reqs, self.replies, self.dones, self.cancels, self.subs = [], [], [], [], []
         self.anomalies = []
         self.live_exc = {}    # step -> exception object published at that step
+        self.got_exc = {}     # id -> exception object a submit future ended with
         self.reorder = None
         self.manager = sm.StreamManager(FakeClient())
 
@@ -755,13 +791,15 @@ class StreamRun:
             self.turn()
             if not self.ex.loop._ready:
                 return
-        raise RuntimeError('asyncio loop does not settle')
+        raise _DriverStall('asyncio loop does not settle')
 
     def close(self):
         self.closed = True
         try:
             self.manager.stop()
             self.settle()
+        except _DriverStall:
+            pass
         finally:
             self.AsyncioExecutor._instance = self.saved_instance
             loop = self.ex.loop
@@ -833,6 +871,7 @@ class StreamRun:
                 o = ('stream', str(exc))
             else:
                 names = [n for n, c in self.exn_classes.items() if type(exc).__name__ == c.__name__ and isinstance(exc, c)]
+                self.got_exc[id(exc)] = exc
                 o = ('exn', names[0] if names else 'other:' + type(exc).__name__, id(exc))
         self.dones.append((self.step, e, o))
 
@@ -884,14 +923,14 @@ class StreamRun:
             self.futs.append(fut)
             fut.add_done_callback(lambda f, e=e: self.on_done(e, f))
         elif k in ('Process', 'RejectReq'):
-            if ev[1] < len(self.wire):
+            if 0 <= ev[1] < len(self.wire):
                 _, mid, r, kind, pj, live = self.wire.pop(ev[1])
                 payload = self.serve(kind, pj) if k == 'Process' else ('err', ev[2])
                 if live:     # a request overtaken by a stream break is still handled, but its response goes nowhere
                     self.pending.append((mid, self.response(mid, pj, payload), payload))
                     self.replies.append((self.step, mid, payload))
         elif k in ('Respond', 'RespondCancel'):
-            if ev[1] < len(self.pending):
+            if 0 <= ev[1] < len(self.pending):
                 mid, resp, payload = self.pending.pop(ev[1])
                 waiter = self.manager._response_demux._subscribers.get(str(mid))
                 e = self.owner.get(mid)
@@ -904,7 +943,7 @@ class StreamRun:
                     self.turn()
                     self.futs[e].cancel()
         elif k in ('Break', 'BreakCancel'):
-            exc = self.exn_classes[ev[1]]('stream broke')
+            exc = self.exn_classes[ev[1]](f'stream broke at step {self.step}')
             self.live_exc[self.step] = exc
             loop.call_soon(self.streams[-1].put_nowait, exc) if self.streams else None
             for w in self.wire:
@@ -954,6 +993,13 @@ class StreamRun:
     def running(self, e):
         return e < len(self.futs) and not self.futs[e].done()
 
+    def same_failure(self, got_id, exc):
+        """The exception a submit future ended with is the failure `exc` of the stream: the very object - except that asyncio,
+        chaining a task's future to a concurrent future, re-creates an instance of the builtin TimeoutError (same arguments);
+        the message names the step of the failure."""
+        got = self.got_exc.get(got_id)
+        return exc is not None and (got is exc or (type(got) is TimeoutError and type(exc) is TimeoutError and got.args == exc.args))
+
 
 def drain_event(run):
     """The undisturbed server: handle the oldest request, else deliver the oldest response; None when nothing is left."""
@@ -986,7 +1032,7 @@ def run_stream_case(mods, pre_progs, pre_jobs, fails, chooser, drain=False, conf
     drain: after the chooser's events the server is left undisturbed (every request handled, every response delivered, oldest
     first) and every submit still running must then finish (with an outcome the step oracles accept: its own)."""
     run = StreamRun(mods, pre_progs, pre_jobs, fails)
-    events, checks = [], []
+    events, checks, waiting = [], [], []
     n_script = None
     try:
         while True:
@@ -1002,7 +1048,13 @@ def run_stream_case(mods, pre_progs, pre_jobs, fails, chooser, drain=False, conf
             if conflict == 'job':
                 ev = job_first(run, ev)
             before = [e for e in range(len(run.futs)) if run.running(e)]
-            run.apply(ev)
+            try:
+                run.apply(ev)
+            except _DriverStall:
+                events.append(ev)
+                checks.append(('livelock', f'after the events {events} the stream client never becomes idle again (its asyncio '
+                                           f'loop always has a callback ready): it spins instead of waiting for the server'))
+                break
             events.append(ev)
             checks += stream_step_oracles(run, ev, before, events)
         checks += stream_final_oracles(run)
@@ -1054,8 +1106,16 @@ def stream_step_oracles(run, ev, before, history=()):
                 if e in done_now or not any(x == e for x, _, kind in reqs_now):
                     bad.append(('retry', f'execution {e}: after a retryable {ev[1]} it did not re-send a request on the new stream '
                                          f'(done={done_now.get(e)}, requests={reqs_now})'))
-            elif o is None or o[0] != 'exn' or o[2] != id(exc):
-                bad.append(('surface', f'execution {e}: non-retryable {ev[1]} did not surface to the caller (got {o})'))
+            elif o is None or o[0] != 'exn' or not run.same_failure(o[2], exc):
+                what = ('a google API error that is not retryable' if isinstance(exc, gexc.GoogleAPICallError) else
+                        'not a google API error, hence not retryable')
+                mine = [(mid, kind) for s, x, mid, kind in run.reqs if x == e]
+                got = ('its future is still pending and it sent no new request: the submitter waits forever' if o is None and
+                       not any(x == e for x, _, _ in reqs_now) else f'its future is still pending, it re-sent {reqs_now}' if o is None
+                       else f'it got {o[:2]}')
+                bad.append(('surface', f'submit {e} (job j{e}) was in flight (last request {mine[-1:]}) when the response stream failed '
+                                       f'with {type(exc).__name__} ({what}) at step {step}, but the failure was not delivered to the '
+                                       f'submitter: {got}; history: {list(history)}'))
     if ev[0] == 'Cancel' and ev[1] in before:
         rpcs = [x for s, x in run.cancels if s == step]
         if rpcs != [ev[1]] or done_now.get(ev[1], ('?',))[0] != 'cancelled':
@@ -1099,7 +1159,7 @@ def stream_step_oracles(run, ev, before, history=()):
         elif o[0] == 'stream':
             ok = ev[0] == 'Respond' and dl is not None and dl[2] == e and tuple(dl[1]) == ('err', o[1])
         elif o[0] == 'exn':
-            ok = ev[0] in ('Break', 'BreakCancel') and e != victim and o[2] == id(run.live_exc.get(step))
+            ok = ev[0] in ('Break', 'BreakCancel') and e != victim and run.same_failure(o[2], run.live_exc.get(step))
         elif o[0] == 'cancelled':
             ok = ((ev[0] == 'Cancel' and ev[1] == e) or ev[0] == 'Stop' or (ev[0] == 'RespondCancel' and dl is not None and dl[2] == e)
                   or (ev[0] == 'BreakCancel' and e == victim))
@@ -1150,7 +1210,8 @@ def stream_step_oracles(run, ev, before, history=()):
             mine = [mid for s, x, mid, kind in run.reqs if x == e]
             if not mine or mine[-1] not in subs or mine[-1] not in inflight:
                 bad.append(('orphan', f'execution {e} is running but its last request {mine[-1:]} is not subscribed / in flight '
-                                      f'(subscribers {subs}, in flight {sorted(inflight)})'))
+                                      f'(subscribers {subs}, in flight {sorted(inflight)}) after the events {list(history)}: no '
+                                      f'reply can reach it any more'))
     return bad
 
 
@@ -1178,9 +1239,9 @@ def _lit_event(ev):
     if k == 'RejectReq':
         return f'(RejectReq {ev[1]} {ev[2]})'
     if k == 'Break':
-        return f'(Break X{ev[1]})'
+        return f'(Break X{_xmodel(ev[1])})'
     if k == 'BreakCancel':
-        return f'(BreakCancel X{ev[1]} {ev[2]})'
+        return f'(BreakCancel X{_xmodel(ev[1])} {ev[2]})'
     if k == 'Stop':
         return 'Stop'       # a simultaneous cancel() of one submitter changes nothing: stop() cancels everybody
     return f'({k} {ev[1]})'
@@ -1198,8 +1259,8 @@ def _lit_eoutcome(o):
         return f'(OReturned ({"RJob" if o[0] == "job" else "RResult"} {o[1] if o[1] >= 0 else 999999}))'
     if o[0] == 'stream':
         return f'(ORaisedStream {o[1]})' if o[1] in tables_c20.CODES else '(ORaisedStream CODE_UNSPECIFIED)'
-    if o[0] == 'exn' and o[1] in tables_c20.EXNS:
-        return f'(ORaisedExn X{o[1]})'
+    if o[0] == 'exn' and _xmodel(o[1]) in tables_c20.EXNS:
+        return f'(ORaisedExn X{_xmodel(o[1])})'
     if o[0] == 'cancelled':
         return 'OCancelled'
     return '(OReturned (RResult 999998))'      # something the model never produces
@@ -1264,11 +1325,11 @@ def random_stream_chooser(rng, max_submits, length):
             opts += [('RespondCancel', rng.randrange(npend))]
         if run.streams:
             opts += [('Break', rng.choice(RETRYABLE))] * 3
-            opts += [('Break', rng.choice(FATAL))]
+            opts += [('Break', rng.choice(FATAL + NONAPI))]
         if ne:
             opts += [('Cancel', rng.randrange(ne))]
         if ne and run.streams:
-            opts += [('BreakCancel', rng.choice(RETRYABLE * 2 + FATAL), rng.randrange(ne))]
+            opts += [('BreakCancel', rng.choice(RETRYABLE * 2 + FATAL + NONAPI), rng.randrange(ne))]
         if rng.random() < 0.03:
             opts += [('Stop',)]
         if ne and rng.random() < 0.03:
@@ -1303,7 +1364,7 @@ def stream_menu(max_submits):
         m += [('Process', k) for k in range(nw)]
         m += [('Respond', k) for k in range(npend)]
         if any(run.running(e) for e in range(ne)):
-            m += [('Break', 'ServiceUnavailable'), ('Break', 'NotFound')]
+            m += [('Break', 'ServiceUnavailable'), ('Break', 'NotFound'), ('Break', 'ConnectionResetError')]
             m += [('Cancel', e) for e in range(ne) if run.running(e)]
         return m
     return menu
@@ -1351,6 +1412,7 @@ def fault_case(mods, rng, sprog, sjob, faults, conflict='program'):
     todo = []
     n = [0]
     used = []
+    stalled = []
 
     def chooser(run):
         if todo:
@@ -1363,6 +1425,12 @@ def fault_case(mods, rng, sprog, sjob, faults, conflict='program'):
         f = next(it, ('NoFault',))
         used.append(f)
         live = len(run.wire) - 1          # the current request is the last one on the wire, the overtaken ones precede it
+        if live < 0 or not run.wire[live][5]:
+            # the execution is running but has no request on the current stream: nothing the server could do will ever
+            # reach it (judged by the step oracles `surface` / `orphan` and by `termination` below)
+            used.pop()
+            stalled.append(len(used))
+            return None
         if f[0] == 'NoFault':
             todo.append(('Respond', 0))
             ev = job_first(run, ('Process', live)) if conflict == 'job' else ('Process', live)
@@ -1381,7 +1449,11 @@ def fault_case(mods, rng, sprog, sjob, faults, conflict='program'):
     c = run_stream_case(mods, [0] if sprog else [], [0] if sjob else [], (), chooser, conflict=conflict)
     c['faults'] = used[:max(len(faults), max([i + 1 for i, f in enumerate(used) if f[0] != 'NoFault'], default=0))]
     c['sprog'], c['sjob'] = sprog, sjob
-    if not c['dones']:
+    if not c['dones'] and stalled:
+        c['bad'].append(('termination', f'after the faults {used[:stalled[0]]} the submit neither finished nor has a request on the '
+                                        f'current stream: the submitter waits forever (requests so far: '
+                                        f'{[k for _, _, _, k in c["reqs"]]}; events: {c["events"]})'))
+    elif not c['dones']:
         c['bad'].append(('termination', f'the execution did not finish within 6 undisturbed exchanges after the faults {list(faults)} '
                                         f'(requests so far: {[k for _, _, _, k in c["reqs"]]})'))
     return c
@@ -1543,6 +1615,57 @@ def recreate_race_grid(quick):
     return out
 
 
+def fatal_fault_grid():
+    """Part A, fixed grid: the stream fails with each kind of exception that is not retryable - every non-retryable google API
+    error and every exception that is not a google API error at all - before / after the server handled the current request,
+    the current request being the first create, the get-result after a retryable break, or a later request of the retry chain
+    (after an already-exists / does-not-exist reply)."""
+    out = []
+    for x in FATAL + NONAPI:
+        for when in ('BreakBefore', 'BreakAfter'):
+            for prefix in ([], [('BreakBefore', 'ServiceUnavailable')], [('NoFault',)], [('BreakAfter', 'Unknown'), ('NoFault',)]):
+                out.append(prefix + [(when, x)])
+    return out
+
+
+def fatal_break_grid(quick):
+    """Manager, fixed grid: the response stream fails with an exception that is not retryable while 1-3 jobs are in flight,
+    for every kind of such exception (google API errors that are not retryable; exceptions that are no google API errors).
+
+    n submits (own / shared program), after no / one retryable break; at the failure the requests are all untouched, all handled
+    (responses outstanding), or the first job has already been answered; the failure is a plain break or coincides with the
+    cancellation of one submit. Then the manager must still be usable: a further job is submitted (a new one, or the very job
+    that failed: resubmission) and the server is left undisturbed - the in-flight jobs must have received that very failure,
+    the later job its own result. Yields (params, ops)."""
+    out = []
+    kinds = FATAL + NONAPI
+    for n in (1, 2, 3):
+        for shared in ((False,) if n == 1 else (False, True)):
+            for pre in ('none', 'break'):
+                for state in ('untouched', 'handled', 'first-done'):
+                    for x in kinds:
+                        for how in ('break', 'breakcancel'):
+                            for after in ('new', 'none'):
+                                if how == 'breakcancel' and (n == 1 or after == 'none'):
+                                    continue
+                                if quick and n == 3 and (x in FATAL[3:] or how == 'breakcancel' or shared):
+                                    continue
+                                if quick and after == 'none' and (n != 2 or shared):
+                                    continue
+                                ops = [('submit', 0 if shared else e) for e in range(n)]
+                                if pre == 'break':
+                                    ops += [('break', 'InternalServerError')]
+                                if state == 'handled':
+                                    ops += [('process', e) for e in range(n)]
+                                elif state == 'first-done':
+                                    ops += [('process', 0), ('respond', 0)]
+                                ops += [('break', x)] if how == 'break' else [('breakcancel', x, n - 1)]
+                                if after == 'new':
+                                    ops += [('submit', 0 if shared else n)]
+                                out.append((dict(n=n, shared=shared, pre=pre, state=state, exception=x, how=how, after=after), ops))
+    return out
+
+
 def _lit_fault(f):
     if f[0] == 'NoFault':
         return 'NoFault'
@@ -1550,10 +1673,11 @@ def _lit_fault(f):
         return f'(Late {f[1]})'
     if f[0] == 'Reject':
         return f'(Reject {f[1]})'
-    return f'({f[0]} X{f[1]})'
+    return f'({f[0]} X{_xmodel(f[1])})'
 
 
 def _lit_fcase(c):
+    from .. import tables_c20
     kinds = [k for _, _, _, k in c['reqs']]
     o = c['dones'][0][2] if c['dones'] else ('running',)
     if o[0] in ('result', 'job'):
@@ -1561,7 +1685,7 @@ def _lit_fcase(c):
     elif o[0] == 'stream':
         lo = f'(RaisedStream {o[1]})'
     elif o[0] == 'exn':
-        lo = f'(RaisedExn X{o[1]})'
+        lo = f'(RaisedExn X{_xmodel(o[1])})' if _xmodel(o[1]) in tables_c20.EXNS else 'OutOfFuel'
     else:
         lo = 'OutOfFuel'
     b = lambda x: 'true' if x else 'false'
@@ -1606,10 +1730,15 @@ def stream_streams(ctx, mods):
         for sprog, sjob in ((False, False), (True, False)):
             for fs in recreate_fault_grid():
                 fcases.append(fault_case(mods, rng, sprog, sjob, fs, conflict=conflict))
+    # fixed grid, every seed: every kind of failure that is not retryable, before / after the server handled the request
+    for sprog, sjob in ((False, False), (True, True)):
+        for fs in fatal_fault_grid():
+            fcases.append(fault_case(mods, rng, sprog, sjob, fs))
     for _ in range(150 if quick else 3000):
         L = rng.randint(3, 8)
         fs = [rng.choice(alphabet + [('BreakBefore', x) for x in RETRYABLE] + [('BreakAfter', x) for x in RETRYABLE]
-                         + [('BreakAfter', rng.choice(FATAL)), ('Reject', rng.choice(OTHER_CODES)), ('Late', 0), ('Late', 1)])
+                         + [('BreakAfter', rng.choice(FATAL + NONAPI)), ('BreakBefore', rng.choice(FATAL + NONAPI)),
+                            ('Reject', rng.choice(OTHER_CODES)), ('Late', 0), ('Late', 1)])
               for _ in range(L)]
         fcases.append(fault_case(mods, rng, rng.random() < 0.4, rng.random() < 0.25, fs, conflict=rng.choice(['program', 'job'])))
     for c in fcases:
@@ -1637,6 +1766,13 @@ def stream_streams(ctx, mods):
     for params, pre_progs, pre_jobs, ops, conflict in recreate_race_grid(quick):
         c = run_stream_case(mods, pre_progs, pre_jobs, [], symbolic_chooser(ops), drain=True, conflict=conflict)
         c['stream'] = 'stream_recreate_race'
+        c['params'] = params
+        mcases.append(c)
+    # (C3) fixed grid, every seed: the stream fails with every kind of exception that is not retryable while jobs are in flight;
+    #      everybody in flight receives that failure, a job submitted afterwards its own result (undisturbed server)
+    for params, ops in fatal_break_grid(quick):
+        c = run_stream_case(mods, [], [], [], symbolic_chooser(ops), drain=True)
+        c['stream'] = 'stream_fatal_break'
         c['params'] = params
         mcases.append(c)
     for _ in range(500 if quick else 8000):
@@ -2156,7 +2292,13 @@ def run(ctx):
                 'late after 0..4 exchanges of the client\'s re-creation chain (one submit as fault sequence; 1-2 submits, own / shared '
                 'program, the other untouched / finished, then the undisturbed server), resubmission of an existing job; every '
                 'already-exists / does-not-exist reply that makes sense for its request must be followed by a right next request, '
-                'never by a StreamError. sampler: ProcessorSampler(max_concurrent_jobs=1..5, jobs_per_batch=1..3) in front of a model '
+                'never by a StreamError. stream (A3/C3) fixed grids, every seed: the response stream fails with every kind of exception that is not retryable - 9 non-retryable google API errors and 9 exceptions that are no google API errors (RuntimeError, '
+                'ConnectionResetError, EOFError, TimeoutError, ValueError, grpc.RpcError, google.auth TransportError, api_core RetryError, a '
+                'BaseException) - before / after the server handled the current request (first create, get-result after a retryable break, '
+                'later request of the retry chain) for one submit, and for the manager with 1-3 jobs in flight (own / shared program, after '
+                'no / one retryable break, requests untouched / handled / the first job already answered, plain failure or coinciding with '
+                'one submitter\'s cancel), followed by a further submit and the undisturbed server: everybody in flight must receive that '
+                'very failure, the later job its own result; the depth-5 enumeration menu also offers such a failure. sampler: ProcessorSampler(max_concurrent_jobs=1..5, jobs_per_batch=1..3) in front of a model '
                 'processor whose jobs finish only when the driver says so: fixed grid x 5 (10) completion orders x 1-2 completions '
                 'per scheduler turn: run_batch_async of more circuits than the limit, a Collector with higher (and lower) concurrency '
                 'than the limit, independent run_async callers arriving between completions with failing jobs, several batches / '
@@ -2177,6 +2319,10 @@ def run(ctx):
                         'results_async() completes only when the driver finishes the job at a quiescent point of the hand-ticked duet '
                         'scheduler; only jobs of independent run_async callers are made to fail (a failing job of a batch / Collector '
                         'cancels its siblings, whose engine jobs are then orphaned: outside the statement)',
+                        'exceptions that are not google API errors are presented to the Coq models as the one such exception of the models '
+                        '(XRuntimeError: the models distinguish exceptions only through is_api / is_retryable); the oracles compare the '
+                        'exception object a submitter receives with the object the stream raised (for the builtin TimeoutError, which '
+                        'asyncio re-creates when chaining futures: type and arguments, the message names the step)',
                         'the fake stream keeps draining the old request iterator until the None sentinel (as the upstream test fake '
                         'does); behaviour of the real gRPC layer is not modelled']
     err = tables.regenerate(['RetryTable'])
